@@ -275,6 +275,10 @@ def leaf_catalogue(T, side):
                     ('name-upper', name.swapcase()), ('name-space', name + ' ')]
         free = next(c for c in range(codes[0], codes[-1] + 3) if c not in codes)
         out += [('nonmember', free), ('nonmember-below', codes[0] - 1), ('code+0.5', codes[0] + 0.5)]
+        if side == 'drv':
+            # member objects of an other enumeration (a driver returning Drivable.Status.BUSY for the status of a Readable)
+            out += [('foreign-member-own-code', {'$foreign_member': ['zz_foreign', codes[0]]}),
+                    ('foreign-member-nonmember', {'$foreign_member': ['zz_foreign', free]})]
     elif k == 'string':
         lo, hi = T['min'], T['max']
         out += [('minlen', 'x' * lo), ('minlen-1', 'x' * max(lo - 1, 0)), ('nonascii', 'ä' * max(lo, 1)),
@@ -381,6 +385,21 @@ def prev_variants(T, base):
         if len(base) < T['max']:
             out.append(('longer', base + [one]))
     return out
+
+
+def materialise(x):
+    """driver-side candidates containing objects which have no JSON form (kept as markers in the cases)"""
+    if isinstance(x, dict):
+        if '$foreign_member' in x:
+            from frappy.lib.enum import Enum
+            name, code = x['$foreign_member']
+            return Enum('foreign', {name: code, 'zz_other': code + 1000})[name]
+        return {k: materialise(v) for k, v in x.items()}
+    if isinstance(x, list):
+        return [materialise(v) for v in x]
+    if isinstance(x, tuple):
+        return tuple(materialise(v) for v in x)
+    return x
 
 
 def tojson(x):
